@@ -7,6 +7,7 @@
 //   hash <step>*     a pool of immutable types.Hash values (and *MutableHashValue), addressed by position
 //        (wrap P*) (parse P*) (parsea P*) (build P*) (put I k v) (merge I J) (delete I k) (deleteAll I (k*))
 //        (get I k) (get4 I xSTR) (mnew) (mput I k v) (mputall I J)            P ::= (k v)
+//        (slice I i j) (select I (k*)) (reject I (k*)) (sort I) (eachSlice I n) (mapKeys I k)
 //   arr  <step>*     a pool of immutable types.Array values
 //        (lit v*) (add I v) (addAll I J) (delete I v) (deleteAll I J) (slice I i j) (unique I) (at I i)
 //        (sort I) (eachSlice I n) (flatten I) (find I v) (len I)
@@ -822,6 +823,31 @@ func hashUniverse(steps []sx.Sexp) ([]sx.Sexp, bool) {
 			if len(a) != 0 {
 				return nil, false
 			}
+		case "select", "reject":
+			if len(a) != 2 || !isRef(a[0]) || !a[1].IsList {
+				return nil, false
+			}
+			for _, k := range a[1].List {
+				if !add(k) {
+					return nil, false
+				}
+			}
+		case "slice":
+			if len(a) != 3 || !isRef(a[0]) || !isRef(a[1]) || !isRef(a[2]) {
+				return nil, false
+			}
+		case "sort":
+			if len(a) != 1 || !isRef(a[0]) {
+				return nil, false
+			}
+		case "eachSlice":
+			if len(a) != 2 || !isRef(a[0]) || !isIntAtom(a[1]) {
+				return nil, false
+			}
+		case "mapKeys":
+			if len(a) != 2 || !isRef(a[0]) || !add(a[1]) {
+				return nil, false
+			}
 		default:
 			return nil, false
 		}
@@ -1001,6 +1027,123 @@ func execHash(steps []sx.Sexp) core.Result {
 				made = &hslot{h: h, ref: r, tainted: s.tainted}
 				pool = append(pool, made)
 				failClass = "delete-wrong-keys"
+			}
+		case "slice", "select", "reject", "sort", "mapKeys":
+			s := slot(0)
+			if s == nil {
+				res = "bad-ref"
+				break
+			}
+			if s.mutable != nil {
+				res = "skip" // the immutable operations are exercised on immutable hashes
+				break
+			}
+			r := newRef()
+			tainted := s.tainted
+			var h px.OrderedMap
+			switch op {
+			case "slice":
+				i, j := int(a[1].MustInt()), int(a[2].MustInt())
+				if !(i <= j && j <= len(s.ref.keys)) {
+					res = "skip" // bounds outside the value: a caller error, outside the property
+					break
+				}
+				for _, k := range s.ref.keys[i:j] {
+					r.put(k, s.ref.vals[k])
+				}
+				fault = safely(func() { h = s.h.(px.List).Slice(i, j).(px.OrderedMap) })
+				failClass = "slice-wrong"
+			case "select", "reject":
+				in := map[string]bool{}
+				for _, k := range a[1].List {
+					ks, _ := valStr(k)
+					in[ks] = true
+				}
+				for _, k := range s.ref.keys {
+					if in[k] == (op == "select") {
+						r.put(k, s.ref.vals[k])
+					}
+				}
+				pred := func(k, _ px.Value) bool { return in[show(k)] }
+				fault = safely(func() {
+					if op == "select" {
+						h = s.h.SelectPairs(pred)
+					} else {
+						h = s.h.RejectPairs(pred)
+					}
+				})
+				failClass = "filter-wrong"
+			case "sort":
+				ks := append([]string{}, s.ref.keys...)
+				sort.Strings(ks)
+				for _, k := range ks {
+					r.put(k, s.ref.vals[k])
+				}
+				fault = safely(func() {
+					h = s.h.(px.SortableList).Sort(func(x, y px.Value) bool { return show(x) < show(y) }).(px.OrderedMap)
+				})
+				failClass = "sort-wrong"
+			case "mapKeys":
+				// every key becomes the same key: the specification's map keeps one entry (first position, last value)
+				nk, _ := valStr(a[1])
+				nkv := valOf(a[1])
+				for _, k := range s.ref.keys {
+					r.put(nk, s.ref.vals[k])
+				}
+				tainted = tainted || len(s.ref.keys) > 1
+				fault = safely(func() {
+					h = s.h.MapEntries(func(e px.MapEntry) px.MapEntry { return types.WrapHashEntry(nkv, e.Value()) })
+				})
+				failClass = "literal-wrong"
+			}
+			if h != nil {
+				if !r.equal(s.ref) {
+					changed = true
+				}
+				made = &hslot{h: h, ref: r, tainted: tainted}
+				pool = append(pool, made)
+			}
+		case "eachSlice":
+			s := slot(0)
+			if s == nil {
+				res = "bad-ref"
+				break
+			}
+			n := int(a[1].MustInt())
+			chunks := []string{}
+			e := safely(func() {
+				s.h.(px.List).EachSlice(n, func(c px.List) {
+					parts := []string{}
+					c.Each(func(x px.Value) { parts = append(parts, show(x)) })
+					chunks = append(chunks, "("+strings.Join(parts, " ")+")")
+				})
+			})
+			exp := []string{}
+			if n >= 1 {
+				for i := 0; i < len(s.ref.keys); i += n {
+					parts := []string{}
+					for j := i; j < i+n && j < len(s.ref.keys); j++ {
+						parts = append(parts, s.ref.keys[j]+"="+s.ref.vals[s.ref.keys[j]])
+					}
+					exp = append(exp, "("+strings.Join(parts, " ")+")")
+				}
+			}
+			switch {
+			case e != nil && n < 1 && strings.Contains(fmt.Sprint(e), "EachSlice"):
+				res = op + "=illegal"
+			case e != nil:
+				fault = e
+			default:
+				res = op + "=[" + strings.Join(chunks, " ") + "]"
+				if n < 1 {
+					fs.add("hash-eachSlice", "step %d %s: a slice size below one was accepted", si, st)
+				} else if !sameStrings(chunks, exp) {
+					cl := "hash-eachSlice"
+					if s.tainted {
+						cl = "literal-dup-keys"
+					}
+					fs.add(cl, "step %d %s: impl %s reference %s", si, st, res, strings.Join(exp, " "))
+				}
 			}
 		case "get", "get4":
 			s := slot(0)
@@ -1560,7 +1703,8 @@ func hashAlphabet() []string {
 		}
 		ops = append(ops, "(delete L "+key+")")
 	}
-	ops = append(ops, "(deleteAll L (1 "+k("1")+"))", "(deleteAll L ((a 1) "+k("a")+" 1))", "(merge L 0)", "(merge 1 L)", "(get 0 (a 1))")
+	ops = append(ops, "(deleteAll L (1 "+k("1")+"))", "(deleteAll L ((a 1) "+k("a")+" 1))", "(merge L 0)", "(merge 1 L)", "(get 0 (a 1))",
+		"(slice L 1 2)", "(select L ("+k("1")+" (a 1)))", "(sort L)")
 	return ops
 }
 
@@ -1690,10 +1834,40 @@ func randHash(r *rand.Rand, n int, dups bool, mutable bool) string {
 			}
 			ops = append(ops, "(deleteAll "+ref()+" ("+strings.Join(ks, " ")+"))")
 			size++
-		case x < 88:
+		case x < 85:
 			ops = append(ops, "(get "+ref()+" "+randHKey(r)+")")
-		case x < 92:
+		case x < 87:
 			ops = append(ops, "(get4 "+ref()+" "+[]string{"x31", "x61", "x62", "x"}[r.Intn(4)]+")")
+		case x < 92:
+			ks := []string{}
+			for j := r.Intn(4); j > 0; j-- {
+				ks = append(ks, randHKey(r))
+			}
+			switch r.Intn(6) {
+			case 0:
+				ops = append(ops, "(select "+ref()+" ("+strings.Join(ks, " ")+"))")
+				size++
+			case 1:
+				ops = append(ops, "(reject "+ref()+" ("+strings.Join(ks, " ")+"))")
+				size++
+			case 2:
+				ops = append(ops, "(sort "+ref()+")")
+				size++
+			case 3:
+				ops = append(ops, "(eachSlice "+ref()+" "+strconv.Itoa(r.Intn(5)-1)+")")
+			case 4:
+				if dups && r.Intn(3) == 0 {
+					ops = append(ops, "(mapKeys "+ref()+" "+randHKey(r)+")")
+					size++
+				} else {
+					ops = append(ops, "(eachSlice "+ref()+" 2)")
+				}
+			default:
+				// slice with bounds that are usually valid for small hashes; an invalid one is skipped on both sides, so
+				// address the result only through `get` right afterwards
+				i := r.Intn(3)
+				ops = append(ops, "(slice "+ref()+" "+strconv.Itoa(i)+" "+strconv.Itoa(i+r.Intn(3))+")")
+			}
 		default:
 			if !mutable {
 				ops = append(ops, "(get "+ref()+" "+randHKey(r)+")")
@@ -1787,7 +1961,7 @@ func gen(g *core.G) {
 		out := []string{"(wrap (1 1) (" + k("1") + " 2) ((a 1) 3))"}
 		size := 1
 		for _, o := range ops {
-			made := !strings.HasPrefix(o, "(get") && !(strings.HasPrefix(o, "(merge 1") && size < 2)
+			made := !strings.HasPrefix(o, "(get") && !(strings.HasPrefix(o, "(merge 1") && size < 2) && !strings.HasPrefix(o, "(slice")
 			out = append(out, strings.Replace(o, " L", " "+strconv.Itoa(size-1), -1))
 			if made {
 				size++
